@@ -63,6 +63,7 @@ type c16Choice struct {
 	label string
 	n     int
 	pick  int
+	deps  []string // points the decided condition depends on
 }
 
 // c16Hook replaces the evaluation of a function (oracles, models); ok=false falls through to the body.
@@ -79,6 +80,7 @@ type c16M struct {
 	hooks   map[string]c16Hook // by (*types.Func).FullName()
 	funcs   map[*types.Func]*FuncInfo
 	notes   []string // havoc / opaque events worth showing in a diagnostic
+	cmps    []c16Decided
 	ids     int
 }
 
@@ -107,7 +109,7 @@ func (m *c16M) choose(label string, n int) int {
 	if len(m.trace) < len(m.script) {
 		pick = m.script[len(m.trace)]
 	}
-	m.trace = append(m.trace, c16Choice{label, n, pick})
+	m.trace = append(m.trace, c16Choice{label: label, n: n, pick: pick})
 	if len(m.trace) > c16MaxChoices {
 		panic(c16Budget{})
 	}
@@ -147,6 +149,7 @@ type c16Outcome struct {
 	err     string // "" | "abort: ..." | "panic: ..." | "budget"
 	choices []c16Choice
 	notes   []string
+	cmps    []c16Decided
 }
 
 // c16Explore evaluates run once per path of decisions. run receives a fresh machine each time.
@@ -173,7 +176,7 @@ func c16Explore(p *core.Program, hooks map[string]c16Hook, run func(m *c16M) c16
 			}()
 			out.val = run(m)
 		}()
-		out.choices, out.notes = m.trace, m.notes
+		out.choices, out.notes, out.cmps = m.trace, m.notes, m.cmps
 		outs = append(outs, out)
 		// next script: bump the last decision that has an alternative left
 		next := -1
